@@ -150,22 +150,54 @@ func H_C06_failed_add() {
 		txt.fail = true
 		vTag("fails=text")
 	case 3:
-		meta = map[string]interface{}{"bad": []int{1}, "c": "new", "n": 7} // unsupported value type ("bad" sorts before the supported keys; "zbad" after)
+		var bad interface{} = []int{1} // unsupported value types
+		switch vChoose("bad_type", 4) {
+		case 1:
+			bad = float32(1.5)
+		case 2:
+			bad = int32(3)
+		case 3:
+			bad = uint8(1)
+		}
+		meta = map[string]interface{}{"bad": bad, "c": "new", "n": 7} // "bad" sorts before the supported keys; "zbad" after
 		if vChoose("bad_key_last", 2) == 1 {
-			meta = map[string]interface{}{"c": "new", "n": 7, "zbad": []int{1}}
+			meta = map[string]interface{}{"c": "new", "n": 7, "zbad": bad}
 		}
 		vTag("fails=metadata")
 	}
 	var err error
-	if vChoose("with_id", 2) == 1 {
+	failedID := uint32(9)
+	switch vChoose("with_id", 3) {
+	case 1:
 		err = h.AddWithID(9, vec, text, meta)
-	} else {
-		_, err = h.Add(vec, text, meta)
+	case 2:
+		// AddWithID on an id that is already live, rejected by the FIRST sub-index (nothing was added
+		// anywhere): the live document must be untouched.  (Failures in a later sub-index on a live id
+		// are outside the property: ids are distinct except for reuse after removal.)
+		if where > 1 {
+			vAssume(false)
+		}
+		failedID = 3
+		err = h.AddWithID(3, vec, text, meta)
+		vTag("failed-add-on-live-id")
+	default:
+		failedID, err = h.Add(vec, text, meta)
 	}
 	vAssert(err != nil, "injected-failure-reported")
 	txt.fail = false
 	after := vRunBattery(h, 2)
 	vSameBattery(before, after, "failed-add")
+	if failedID == 3 {
+		// the live document 3 is still removable, exactly once, from every modality
+		vAssert(h.Remove(3) == nil, "live-document-still-removable-after-failed-add")
+		b := vRunBattery(h, 2)
+		vAssert(!vContains(b.vec, 3) && !vContains(b.txt, 3) && !vContains(b.meta, 3), "removed-after-failed-add-unfindable")
+		vAssert(h.Remove(3) != nil, "second-remove-is-error")
+		vCover("ran")
+		return
+	}
+	vAssert(h.Remove(failedID) != nil, "failed-add-leaves-no-record-remove-is-error")
+	vSameBattery(before, vRunBattery(h, 2), "failed-remove")
 	// and the index keeps working
 	vAssert(h.AddWithID(9, []float32{3, 4}, "new fox", map[string]interface{}{"c": "new"}) == nil, "add-after-failure-ok")
 	b3 := vRunBattery(h, 2)
@@ -250,7 +282,8 @@ func vFlushAt(pos int, f func() error) {
 // update = Remove(id) [Flush] Add(id, new) [Flush]: only the new content is findable — each vector index kind on its own
 func H_C06_readd_vector() {
 	kind := vChoose("kind", 5)
-	u := vMakeIndex(kind, L2Squared, 1, 1)
+	vPQConcreteCB = true
+	u := vMakeIndexC(kind, L2Squared, 1, 2, false) // ivf kinds: two cells (centroids 0 and 4): the update moves the vector to the other cell
 	idx := u.idx
 	add := func(id uint32, x float32) { vAssert(idx.Add(*NewVectorNodeWithID(id, []float32{x})) == nil, "add-ok") }
 	add(5, 1)
